@@ -58,7 +58,10 @@ type Ctx struct {
 }
 
 func (c *Ctx) count(k string, n int64) { c.Counters[k] += n }
-func (c *Ctx) logf(f string, a ...any)  { c.log = append(c.log, fmt.Sprintf(f, a...)...); c.log = append(c.log, '\n') }
+func (c *Ctx) logf(f string, a ...any) {
+	c.log = append(c.log, fmt.Sprintf(f, a...)...)
+	c.log = append(c.log, '\n')
+}
 func (c *Ctx) takeDigest() uint64 {
 	h := fnv.New64a()
 	h.Write(c.log)
@@ -164,8 +167,8 @@ func fatal(f string, a ...any) {
 
 type opts struct {
 	prop, tier, verif, sites, scratch, out, only, file string
-	seed                                                uint64
-	shard, of, procs                                    int
+	seed                                               uint64
+	shard, of, procs                                   int
 }
 
 func parseOpts(args []string) *opts {
@@ -435,8 +438,12 @@ func coord(o *opts) int {
 		path := filepath.Join(dir, fmt.Sprintf("%s-%d-%d-%08x.json", o.prop, o.seed, v.Index, uint32(hashStr(sig))))
 		b, _ := json.MarshalIndent(v, "", " ")
 		os.WriteFile(path, b, 0o644)
-		fmt.Printf("VIOLATION property=%s replay=%s\n", o.prop, path)
-		fmt.Printf("  clause: %s\n  detail: %s\n  signature: %s (%d occurrence(s))\n", v.Clause, v.Detail, sig, len(vs))
+		if reported < 25 {
+			fmt.Printf("VIOLATION property=%s replay=%s\n", o.prop, path)
+			fmt.Printf("  clause: %s\n  detail: %s\n  signature: %s (%d occurrence(s))\n", v.Clause, v.Detail, sig, len(vs))
+		} else if reported == 25 {
+			fmt.Printf("(further violation signatures are listed in the evidence file and have replay files under %s)\n", dir)
+		}
 		reportedList = append(reportedList, map[string]any{"signature": sig, "clause": v.Clause, "detail": v.Detail, "replay": path, "occurrences": len(vs)})
 		reported++
 		exit = 1
